@@ -1,6 +1,7 @@
 """C13 - pruning removes exactly the non-viable or unnecessary attack steps.
 PruneExact as an action property of GraphSM (exhaustive in the prune slice, arbitrary labels via Analyse and Touch) and
-Consistent in the successor; behaviours replayed: node set, labels of the survivors, structure and indexes after prune."""
+Consistent in the successor; behaviours replayed: node set, labels of the survivors, structure and indexes after prune.
+Larger graphs: the families of Gen_AprioriBig, pruned after the analysis, against Gen_AprioriBig!BigPrunable."""
 from checks import gsm
 LEVEL = 'model_checking'
 KEEP = lambda d: d.get('action') == 'Prune'
@@ -19,5 +20,10 @@ def run(run):
     gsm.simulate(run, 'C13', 12, 3000 if quick else 50000, keep=KEEP, lang='LDef', timeout=300 if quick else 1800)
     gsm.simulate(run, 'ALL', 14, 2000 if quick else 30000, keep=KEEP, timeout=300 if quick else 1800)
     gsm.simulate(run, 'C13', 10, 1500 if quick else 20000, keep=KEEP, lang='LSet', timeout=300 if quick else 1800)
+    # larger graphs: the Gen_AprioriBig families (12 / 120 nodes; thorough 240 and the 800-node chains) analysed and pruned;
+    # expected survivors = all steps but Gen_AprioriBig!BigPrunable, with order, ids, labels, remaining edges and lookups
+    run.gen_replay('Gen_AprioriBig', 'Gen_AprioriBig.cfg', 'harness.replay_prune_big', {'seed': run.seed},
+                   env={'VERIF_L1': 12, 'VERIF_L2': 120 if quick else 240, 'VERIF_L3': 0 if quick else 800}, timeout=900, workers=16,
+                   name='prune after analysis on graph families of 12 / %d nodes, 3 stored orders each' % (120 if quick else 240))
     if not quick:
         gsm.mc_slice(run, 'C13', 7, depth=7, must=('Prune', 'Analyse', 'Touch'))          # larger design check last
